@@ -69,14 +69,17 @@ package generator
 //@   ensures-assumed [C01:A-FRAGMENT] atomFails(result[0]) == !holds(box(profile.RegoRule, rule))
 
 //@ func GenerateScalarIntersectSetRule(containsSome profile.ScalarSetRule, iriExpander *misc.IriExpander) []SimpleRegoResult
+//@   ensures [C02:one-value-per-reached-node] len(result) == 1 && len(result[0].PathRules) == 1 && result[0].PathRules[0] == propSetF(box(path.PropertyPath, containsSome.Path), containsSome.Variable.Name, ref(iriExpander))
 //@   ensures [C01:single-result] len(result) == 1 && result == snoc(empty(Seq_S_generator_SimpleRegoResult), result[0])
 //@   ensures-assumed [C01:A-FRAGMENT] atomFails(result[0]) == !holds(box(profile.ScalarSetRule, containsSome))
 
 //@ func GenerateScalarSubSetRule(containsAll profile.ScalarSetRule, iriExpander *misc.IriExpander) []SimpleRegoResult
+//@   ensures [C02:one-value-per-reached-node] len(result) == 1 && len(result[0].PathRules) == 1 && result[0].PathRules[0] == propSetF(box(path.PropertyPath, containsAll.Path), containsAll.Variable.Name, ref(iriExpander))
 //@   ensures [C01:single-result] len(result) == 1 && result == snoc(empty(Seq_S_generator_SimpleRegoResult), result[0])
 //@   ensures-assumed [C01:A-FRAGMENT] atomFails(result[0]) == !holds(box(profile.ScalarSetRule, containsAll))
 
 //@ func GenerateScalarSuperSetRule(in profile.ScalarSetRule, iriExpander *misc.IriExpander) []SimpleRegoResult
+//@   ensures [C02:one-value-per-reached-node] len(result) == 1 && len(result[0].PathRules) == 1 && result[0].PathRules[0] == propSetF(box(path.PropertyPath, in.Path), in.Variable.Name, ref(iriExpander))
 //@   ensures [C01:single-result] len(result) == 1 && result == snoc(empty(Seq_S_generator_SimpleRegoResult), result[0])
 //@   ensures-assumed [C01:A-FRAGMENT] atomFails(result[0]) == !holds(box(profile.ScalarSetRule, in))
 
@@ -86,6 +89,7 @@ package generator
 //@   ensures-assumed [C01:A-FRAGMENT] atomFails(result[0]) == !holds(box(profile.UniqueValuesRule, uniqueValues))
 
 //@ func generateCountRule(count profile.CountRule, condition string, iriExpander *misc.IriExpander) []SimpleRegoResult
+//@   ensures [C02:one-value-per-reached-node] len(result) == 1 && len(result[0].PathRules) == 1 && result[0].PathRules[0] == propSetF(box(path.PropertyPath, count.Path), count.Variable.Name, ref(iriExpander))
 //@   ensures [C01:single-result] len(result) == 1 && result == snoc(empty(Seq_S_generator_SimpleRegoResult), result[0])
 
 //@ func generateNumericRule(num profile.NumericRule, rule string, op string, iriExpander *misc.IriExpander) []SimpleRegoResult
@@ -222,6 +226,9 @@ package generator
 //@   ensures [C02:each-clause-yields-its-own-binding] forall k int :: 0 <= k && k < len(result) ==> (len(result[k].rego) >= 1 && result[k].rego[len(result[k].rego) - 1] == "nodes = " + result[k].variable)
 //@   loop 1 /* for _, tr := range traverse(path, t, fetchNodes, iriExpander) */
 //@     invariant [C02] len(acc) == #i && (forall k int :: 0 <= k && k < #i ==> (len(acc[k].rego) >= 1 && acc[k].rego[len(acc[k].rego) - 1] == "nodes = " + acc[k].variable))
+
+//@ func GeneratePropertySet(path path.PropertyPath, variable string, iriExpander *misc.IriExpander) RegoPathResult
+//@   ensures-assumed [C02:A-PURE] result == propSetF(path, variable, ref(iriExpander))
 
 //@ func GeneratePropertyArray(path path.PropertyPath, variable string, iriExpander *misc.IriExpander) RegoPathResult
 //@   requires [C07:array-holds-one-clause] nalts(path) <= 1
